@@ -4,6 +4,8 @@ from ..net import NetWorld, InTap, OutTap, Recorder, Script, ScriptedRandom, sta
 from onl.netdev import Wire, Cable
 import onl.netdev.wire as wire_mod
 
+from ..net import valid_workloads as valid  # noqa: E402,F401
+
 ID = 'C10'
 TIERS = {'quick': {'runs': 12000, 'budget_s': 30}, 'thorough': {'runs': 600000, 'budget_s': 600}}
 RULE = ('one real Wire (or a Cable with two endpoints) fed by a harness injector; scripted delay lists (constant, '
